@@ -1,5 +1,10 @@
 // simrun is the worker process: it is built by vsim with the instrumentation
 // overlay and executes seeded simulated runs of one property.
+//
+// panicnil=1 is what every main module that declares a Go version below 1.21 runs with: panic(nil) is then
+// recovered as nil. The library under test must recognise such a panic too (C01 / C16 script it).
+
+//go:debug panicnil=1
 package main
 
 import (
